@@ -44,6 +44,77 @@ use yash_env::system::{
 use yash_semantics::trap::run_exit_trap;
 use yash_semantics::{Runtime, interactive_read_eval_loop, read_eval_loop};
 
+#[cfg(not(feature = "verif-hooks"))]
+fn process_args() -> std::env::Args {
+    std::env::args()
+}
+
+#[cfg(not(feature = "verif-hooks"))]
+fn process_vars() -> std::env::Vars {
+    std::env::vars()
+}
+
+#[cfg(feature = "verif-hooks")]
+use self::verif::{process_args, process_vars};
+
+/// Verification hooks: run the shell process entry point on any system with
+/// given arguments and environment variables (off by default).
+#[cfg(feature = "verif-hooks")]
+pub mod verif {
+    use super::*;
+    use std::any::Any;
+
+    type BeforeInput = Box<dyn FnOnce(&mut dyn Any)>;
+
+    thread_local! {
+        static ARGS: RefCell<Vec<String>> = const { RefCell::new(Vec::new()) };
+        static VARS: RefCell<Vec<(String, String)>> = const { RefCell::new(Vec::new()) };
+        static BEFORE_INPUT: RefCell<Option<BeforeInput>> = const { RefCell::new(None) };
+    }
+
+    pub(super) fn process_args() -> std::vec::IntoIter<String> {
+        ARGS.with(|a| a.borrow().clone()).into_iter()
+    }
+
+    pub(super) fn process_vars() -> std::vec::IntoIter<(String, String)> {
+        VARS.with(|v| v.borrow().clone()).into_iter()
+    }
+
+    pub(super) fn before_input<S: 'static>(env: &mut Env<S>) {
+        if let Some(f) = BEFORE_INPUT.with(|f| f.borrow_mut().take()) {
+            f(env as &mut dyn Any)
+        }
+    }
+
+    /// Runs `run_as_shell_process` with the given arguments and environment
+    /// variables. `before_input` is called with the environment (as `&mut
+    /// Env<S>`) after the start-up configuration, before the input is opened.
+    pub async fn run_as_shell_process<S>(
+        env: &mut Env<S>,
+        args: Vec<String>,
+        vars: Vec<(String, String)>,
+        before_input: BeforeInput,
+    ) where
+        S: Chdir
+            + Clone
+            + GetCwd
+            + GetRlimit
+            + GetUid
+            + Runtime
+            + Sysconf
+            + TcGetPgrp
+            + Times
+            + Umask
+            + Write
+            + 'static,
+    {
+        ARGS.with(|a| *a.borrow_mut() = args);
+        VARS.with(|v| *v.borrow_mut() = vars);
+        BEFORE_INPUT.with(|f| *f.borrow_mut() = Some(before_input));
+        super::run_as_shell_process(env).await
+    }
+}
+
 async fn print_version<S>(env: &mut Env<S>)
 where
     S: Isatty + WriteAll,
@@ -73,12 +144,12 @@ where
         + 'static,
 {
     // Parse the command-line arguments
-    let run = match self::startup::args::parse(std::env::args()) {
+    let run = match self::startup::args::parse(process_args()) {
         Ok(Parse::Help) => todo!("print help"),
         Ok(Parse::Version) => return print_version(env).await,
         Ok(Parse::Run(run)) => run,
         Err(e) => {
-            let arg0 = std::env::args().next().unwrap_or_else(|| "yash".to_owned());
+            let arg0 = process_args().next().unwrap_or_else(|| "yash".to_owned());
             env.system.print_error(&format!("{arg0}: {e}\n")).await;
             env.exit_status = ExitStatus::ERROR;
             return;
@@ -93,7 +164,7 @@ where
         .find_map(|&(option, state)| (option == Portable).then_some(state))
         == Some(On);
     env.variables.extend_env(
-        std::env::vars()
+        process_vars()
             .filter(|(name, _)| !portable || yash_env::variable::is_portable_variable_name(name)),
     );
 
@@ -105,12 +176,15 @@ where
     // TODO run profile if login
     run_rcfile(env, work.rcfile).await;
 
+    #[cfg(feature = "verif-hooks")]
+    self::verif::before_input(env);
+
     // Prepare the input for the main read-eval loop
     let ref_env = RefCell::new(env);
     let lexer = match prepare_input(&ref_env, &work.source).await {
         Ok(lexer) => lexer,
         Err(e) => {
-            let arg0 = std::env::args().next().unwrap_or_else(|| "yash".to_owned());
+            let arg0 = process_args().next().unwrap_or_else(|| "yash".to_owned());
             let message = format!("{arg0}: {e}\n");
             // The borrow checker of Rust 1.79.0 is not smart enough to reason
             // about the lifetime of `e` here, so we re-borrow from `ref_env`
